@@ -232,7 +232,7 @@ Proof.
     + destruct (pi_is_last pi1); [subst r; cbn in Hc; injection Hc as <-; congruence|].
       destruct (check_permission m OpenLookup (v_user v)); [|subst r; discriminate He].
       apply (IH vol n pi1 sl saved r c); auto. unfold node_is_dir. rewrite Hgn. reflexivity.
-    + destruct (pi_is_last pi1); subst r; [cbn in Hc; injection Hc as <-; congruence|discriminate He].
+    + destruct (pi_is_last pi1); subst r; [cbn in Hc; injection Hc as <-; congruence|cbn in He; destruct (v_os v); discriminate He].
     + rewrite Hslm, andb_false_r in Hr. destruct (Nat.ltb slCountMax (S sl)); [subst r; discriminate He|].
       destruct (pi_replace_part (v_os v) pi1 t) as [reset pi2].
       eapply (IH vol (if reset then vol else p0)); eauto. destruct reset; assumption.
@@ -350,7 +350,7 @@ Lemma mkdir_nonempty (s : fsys) (v : view) (name : str) (perm : N) :
     let r := search_node s v name SlLstat in
     if negb (is_not_exist (sr_err r)) || negb (pi_is_last (sr_pi r)) then (s, RFail (sr_err r))
     else match sr_parent r with
-         | None => (s, RPanic)
+         | None => (s, RFail (sr_err r))
          | Some parent =>
              if negb (perm_on (f_heap s) parent (N.lor OpenWrite OpenLookup) (v_user v)) then (s, RFail EPermDenied)
              else
@@ -838,7 +838,7 @@ Lemma open_wct (s : fsys) (v : view) (vi : nat) (name : str) (perm : N) :
     if (negb (is_file_exists e) && negb (is_not_exist e)) || negb (pi_is_last (sr_pi r)) then (s, inl (RFail e))
     else if is_not_exist e then
       match sr_parent r with
-      | None => (s, inl RPanic)
+      | None => (s, inl (RFail e))
       | Some parent =>
           if negb (perm_on h parent (N.lor OpenWrite OpenLookup) (v_user v)) then (s, inl (RFail EPermDenied))
           else match alookup str_eqb (pi_part (sr_pi r)) (children h parent) with
@@ -877,7 +877,13 @@ Lemma f_write_fresh (s1 : fsys) (v : view) (c vi : nat) (name : str) (b : list N
 Proof.
   intros Hn Hg. unfold f_write, file_of. cbn [new_handle hd_name hd_node hd_mode hd_at]. rewrite Hg.
   destruct name as [|c0 name]; [congruence|]. change (has 82 OpenWrite) with true. change (has 82 OpenAppend) with false.
-  cbn [negb]. cbv iota. rewrite write_at_empty. split; reflexivity.
+  cbn [negb]. cbv iota. destruct b as [|b0 b'].
+  - (* zero bytes: nothing is written; the heap the statement names is the same heap *)
+    cbn [fst snd length Z.of_nat]. split; [|reflexivity].
+    assert (Hupd : forall (h : heap) (i0 : nat) (x : node), get h i0 = Some x -> upd h i0 x = h).
+    { unfold get. induction h as [|y h IHh]; intros [|i0] x Hx; cbn in *; try congruence. f_equal. now apply IHh. }
+    rewrite (Hupd _ _ _ Hg). now destruct s1.
+  - rewrite write_at_empty. split; reflexivity.
 Qed.
 
 Lemma kwalk_not_parent : forall f h u root follow cur (work : list str) cnt md a b c d,
